@@ -40,6 +40,9 @@ def cases(thorough):
                     if not thorough and op not in ("sum", "mean", "nanmax") and (dz, w) not in ((1 / 4, 1.0), (1 / 16, 1 / 4)):
                         continue
                     yield dict(base, block="A", dz=dz, dx=w, resolution=4, operation=op, origin=o, direction="z")
+                    if w == 1.0:
+                        # ... the same reduction chosen on the layer instead of in the call
+                        yield dict(base, block="A", dz=dz, dx=w, resolution=4, operation=op, origin=o, direction="z", operation_on_layer=True)
         # block B: resolutions (int, dict with and without z), exactly one pixel thick, other origins and axes
         for res in (2, 3, {"x": 3, "y": 2}, {"x": 2, "y": 2, "z": 3}, {"x": 4, "y": 4, "z": 1}, {"z": 2, "x": 3, "y": 3}):
             for dz in (1 / 2, 1.0):
